@@ -93,7 +93,7 @@ theorem spec_maildirMove {cs : List Bytes} (env : PEnv) (src dst : Maildir) (ms 
   rename_i fl _
   refine wp_bind_mono (wp_inv_mono (spec_genname env dst (some fl) cs p0 n0 fid0 (fun w' => DirH w' dh)
     (fun w d n r h => h.step _ r (by simp [Call.subject]) (by intro _ h; cases h))
-    4096 _ hg0 hdh0) fun _ h => h.good) ?_
+    gennameAttempts _ hg0 hdh0) fun _ h => h.good) ?_
   rintro g w1 ⟨hg1, hdh1, hnew⟩
   cases g with
   | none => exact ⟨hg1.good, rfl⟩
